@@ -68,7 +68,8 @@ ExpectWrite(lx, it) ==
         LET b == IF Len(last.idx) = 1 THEN last.idx[1] ELSE 0
             c == it.count
         IN IF c < 1 \/ b + c > 32 * r0.avail THEN WInvalid
-           ELSE IF c = 1 /\ ~IsL(v) THEN (IF TruthDefined(v) THEN WExp("valid", r0.key, r0.off + 4 * (b \div 32), <<>>, b % 32, Truthy(v)) ELSE WUnspec)
+           ELSE IF Len(last.idx) = 0 /\ c = 1 THEN WUnspec            \* a BOOL array written without index or count: not documented
+           ELSE IF c = 1 /\ ~IsL(v) THEN (IF TruthDefined(v) THEN WExp("valid", r0.key, r0.off + (b \div 8), <<>>, b % 8, Truthy(v)) ELSE WUnspec)
            ELSE IF c = 1 THEN WUnspec
            ELSE IF b % 32 # 0 THEN WInvalid                                                   \* misaligned BOOL-array write
            ELSE IF ~IsL(v) \/ Len(v.l) < c THEN WInvalid
